@@ -60,6 +60,7 @@ package handler
 //@   ensures [stale-or-duplicate-400] delta(SendResponseRefused) == 1 ==> delta(RenderInterop) == 1 && delta(RtResponseSent) == 0 && delta(RenderAccepted) == 0 && delta(SendError) == 0
 //@   ensures [oversize-413] delta(SendResponseTooLarge) == 1 && delta(SendErrorOK) == 1 ==> delta(SendError) == 1 && delta(RtResponseSent) == 1 && delta(Render413) == 1 && delta(RenderAccepted) == 0
 //@   ensures [oversize-error-body] delta(SendResponseTooLarge) == 1 ==> delta(SendError) == 1
+//@   ensures [the-body-is-handed-on-as-it-is] delta(SendResponse) == 1 ==> lastarg(SendResponse, 2).Payload == request.Body
 
 //@ func (*invocationErrorHandler).ServeHTTP
 //@   ensures [one-transition] delta(RtError) == 1
